@@ -21,7 +21,7 @@ class Clock(object):
 def run_scenario(job):
     """job = (scenario record from TLC, limit, variant) -> trace line
     variant: 0 plain files; 1 older files gzip'ed; 2 bz2; 3 plain + gz duplicate of every rotated file; 4 comment and
-    corrupt record inserted after the first record of every file"""
+    corrupt record inserted after the first record of every file; 5 a comment line before the first and after the last record"""
     warnings.filterwarnings("ignore")
     import cpppo.history.files as hf
     import cpppo.history.times as ht
@@ -42,12 +42,16 @@ def run_scenario(job):
             age = nfiles - 1 - fi                                  # 0 = newest = path itself
             name = path if age == 0 else "%s.%d" % (path, age - 1)
             with hf.logger(name) as lg:
+                if variant == 5:
+                    lg.comment("history file begins")
                 for n, r in enumerate(recs):
                     lg.write({str(r["reg"]): r["val"]}, now=BASE + r["ts"], serial=serial)
                     serial += 1
                     if variant == 4 and n == 0:
                         lg.comment("a comment line")
                         lg._append("%s\t%d\t{ this is not json\n" % (timestamp(BASE + r["ts"]), serial))
+                if variant == 5:
+                    lg.comment("history file ends")
             if age > 0 and variant in (1, 2, 3):
                 comp, ext = (gzip.open, ".gz") if variant in (1, 3) else (bz2.open, ".bz2")
                 with open(name, "rb") as src, comp(name + ext, "wb") as dst:
